@@ -74,7 +74,7 @@ def build(rng, n_sing):
     two = rng.random() < 0.35
     states = ["x", "y"] if two else ["x"]
     vals = {"x": 0.625, "y": -0.375}
-    terms, sing = [], []  # sing: (state, value)
+    terms, sing, helpers = [], [], []  # terms: (reference text, model text); sing: (state, value)
     used_a = set()
     for j in range(n_sing):
         st = rng.choice(states)
@@ -91,34 +91,44 @@ def build(rng, n_sing):
             # keep the logarithm's argument positive near the singular value only: use a family member without log
             # when the sample points could make 1 + u <= 0
             fam = rng.choice(FAMILY[:4])
-        term = fam.format(u=f"({u})")
+        term = mterm = fam.format(u=f"({u})")
+        if rng.random() < 0.3:
+            # the singular expression is written in an intermediate of the state (dV = V - E_K; alpha = dV/(exp(k*dV) - 1))
+            helpers.append(f"u{j} = {u}")
+            mterm = fam.format(u=f"(u{j})")
         if rng.random() < 0.2:
             # the singular expression is one branch of a conditional on something else (a parameter)
-            term = rng.choice([f"Conditional(Gt(pg, 1), {term}, 7)", f"Conditional(Lt(pg, 1), 7, {term})"])
-        terms.append(term)
+            wrap = rng.choice(["Conditional(Gt(pg, 1), {T}, 7)", "Conditional(Lt(pg, 1), 7, {T})"])
+            term, mterm = wrap.format(T=term), wrap.format(T=mterm)
+        terms.append((term, mterm))
         sing.append((st, a))
     for _ in range(rng.randint(0, 2)):
-        terms.append(rng.choice(SMOOTH).format(x=rng.choice(states)))
+        t_ = rng.choice(SMOOTH).format(x=rng.choice(states))
+        terms.append((t_, t_))
     nonrem = None
     if rng.random() < 0.3:
         st = rng.choice(states)
         b = rng.choice([4.0, -3.0, 2.5])
-        terms.append(rng.choice(NONREMOVABLE).format(x=st, b=b))
+        t_ = rng.choice(NONREMOVABLE).format(x=st, b=b)
+        terms.append((t_, t_))
         nonrem = (st, b)
     if not terms:
-        terms = ["0.5 * x"]
+        terms = [("0.5 * x", "0.5 * x")]
     rng.shuffle(terms)
-    expr = terms[0]
-    for t in terms[1:]:
-        expr = f"({expr}) {rng.choice(['+', '+', '*', '-'])} ({t})"
+    expr, mexpr = terms[0]
+    for t, mt in terms[1:]:
+        op = rng.choice(['+', '+', '*', '-'])
+        expr = f"({expr}) {op} ({t})"
+        mexpr = f"({mexpr}) {op} ({mt})"
     as_inter = rng.random() < 0.5
     layout = rng.choice(["flat", "flat", "components", "stateless_component"])
     if layout == "flat":
         lines = ["parameters(pg=2.0)", "states(" + ", ".join(f"{s}={vals[s]}" for s in states) + ")", ""]
+        lines += helpers
         if as_inter:
-            lines += [f"w = {expr}", "dx_dt = w - x"]
+            lines += [f"w = {mexpr}", "dx_dt = w - x"]
         else:
-            lines += [f"dx_dt = {expr}"]
+            lines += [f"dx_dt = {mexpr}"]
         if two:
             lines.append("dy_dt = -y")
     else:
@@ -129,9 +139,9 @@ def build(rng, n_sing):
         lines.append("")
         if as_inter:
             home = "Rates" if layout == "stateless_component" else ("Gate" if two else "Membrane")
-            lines += [f'expressions("{home}")', f"w = {expr}", "", 'expressions("Membrane")', "dx_dt = w - x"]
+            lines += [f'expressions("{home}")'] + helpers + [f"w = {mexpr}", "", 'expressions("Membrane")', "dx_dt = w - x"]
         else:
-            lines += ['expressions("Rates")', "unused_rate = 0.5", "", 'expressions("Membrane")', f"dx_dt = {expr}"]
+            lines += ['expressions("Rates")', "unused_rate = 0.5"] + helpers + ["", 'expressions("Membrane")', f"dx_dt = {mexpr}"]
         if two:
             lines += ["", 'expressions("Gate")', "dy_dt = -y"]
     return "\n".join(lines) + "\n", states, sing, nonrem, ("w" if as_inter else "dx_dt"), expr
